@@ -3,6 +3,7 @@ import os
 
 import c04_api
 import c19
+import x06fe
 import x06rl
 import serve_common as sc
 
@@ -13,7 +14,7 @@ def run(ctx, replay):
                        "concretised to bytes (several byte-level variants per abstract packet) and served by the real "
                        "default chain through three entries; the reply contract is evaluated on the raw bytes of every reply")
     ctx.assumptions += ["byte-level packet universe is sampled per abstract class, not enumerated",
-                        "DoH/DoQ/DoT framing is not exercised; their shared entry Server.ServeMsg is"]
+                        "DoH / DoH3 / DoQ framing is exercised by the FrontEnd tier (real listeners on loopback, scripted tail); DoT by C10"]
     sc.run_family_models(ctx, sc.FAMILIES, thorough)
     sc.regression_model(ctx)
     sc.replay(ctx, "C06", sc.FAMILIES, num=400 if not thorough else 5000, variants=2 if not thorough else 4)
@@ -40,3 +41,8 @@ def run(ctx, replay):
     if os.path.exists(ov):
         os.remove(ov)
     c19.denial_family(ctx, thorough, focus="c06")
+    # the DoH / DoH3 / DoQ listeners themselves (FrontEnd.tla): ID 0 over DoQ, no truncation on streams, keepalive,
+    # DNSSEC records only when asked, the JSON API; the module's exclusive-ownership classes (c10/*) and its
+    # HTTP-level ones (fe/*) are drift here
+    x06fe.ONLY = ("c06/",)
+    x06fe.run_tier(ctx)
